@@ -153,6 +153,18 @@ func (v *Val) Build(order int) interface{} {
 		return Label{v.S}
 	case "time":
 		return time.Unix(v.I, 0).UTC()
+	case "anymap": // map[interface{}]interface{}; keys "#<n>" become ints, everything else stays a string
+		out := make(map[interface{}]interface{})
+		for _, kv := range ents() {
+			if strings.HasPrefix(kv.K, "#") {
+				var k int
+				fmt.Sscanf(kv.K[1:], "%d", &k)
+				out[k] = kv.V.Build(order)
+			} else {
+				out[kv.K] = kv.V.Build(order)
+			}
+		}
+		return out
 	case "pmap": // pointer to a map value holder (prints with an address)
 		m := map[string]interface{}{}
 		for _, kv := range ents() {
